@@ -75,7 +75,15 @@ func vstubTCPAddrString(a *net.TCPAddr) string {
 // context: a cancel tree with eagerly created Done channels. Every operation that touches
 // shared state is one atomic engine transition (vAtomic ... vAtomicEnd).
 
+// vCtxTree is the registry of one cancel tree: every operation on a tree is one engine
+// transition declared on the tree object (vAtomic kind 3 = the tree plus every channel
+// reachable from it, i.e. all Done channels of the tree).
+type vCtxTree struct {
+	nodes []*vCtx
+}
+
 type vCtx struct {
+	tree     *vCtxTree
 	parent   context.Context
 	done     chan struct{} // nil for value contexts over a never-cancelled parent
 	err      error
@@ -92,7 +100,7 @@ func (c *vCtx) Err() error {
 	if c.isValue {
 		return c.parent.Err()
 	}
-	vAtomic(0, c)
+	vAtomic(0, c.tree)
 	e := c.err
 	vAtomicEnd()
 	return e
@@ -106,7 +114,7 @@ func (c *vCtx) Value(key interface{}) interface{} {
 }
 
 func (c *vCtx) cancel(err error) {
-	vAtomic(2, c)
+	vAtomic(3, c.tree)
 	c.cancelLocked(err, true)
 	vAtomicEnd()
 }
@@ -149,8 +157,10 @@ func vCancelParent(p context.Context) *vCtx {
 
 func vNewCancelCtx(parent context.Context) *vCtx {
 	c := &vCtx{parent: parent, done: make(chan struct{})}
-	vAtomic(2, c)
 	if p := vCancelParent(parent); p != nil {
+		c.tree = p.tree
+		vAtomic(3, c.tree)
+		c.tree.nodes = append(c.tree.nodes, c)
 		if p.err != nil {
 			c.cancelLocked(p.err, false)
 		} else {
@@ -159,7 +169,7 @@ func vNewCancelCtx(parent context.Context) *vCtx {
 		vAtomicEnd()
 		return c
 	}
-	vAtomicEnd()
+	c.tree = &vCtxTree{nodes: []*vCtx{c}}
 	if pd := parent.Done(); pd != nil {
 		// foreign cancelable parent: watch it (as the real package does)
 		go func() {
@@ -202,7 +212,11 @@ func vstubWithDeadline(parent context.Context, t time.Time) (context.Context, co
 
 //verif:stub context.WithValue
 func vstubWithValue(parent context.Context, key, val interface{}) context.Context {
-	return &vCtx{parent: parent, done: vDoneOf(parent), isValue: true, key: key, val: val}
+	c := &vCtx{parent: parent, done: vDoneOf(parent), isValue: true, key: key, val: val}
+	if p, ok := parent.(*vCtx); ok {
+		c.tree = p.tree
+	}
+	return c
 }
 
 func vDoneOf(p context.Context) chan struct{} {
